@@ -55,7 +55,7 @@ if [ "${SELFTEST_BASELINE:-0}" = 1 ]; then
     done
 fi
 
-grep -v '^#' "$VERIF_DIR/selftest/INDEX.tsv" | while IFS="$(printf '\t')" read -r patch props note; do
+grep -v "^#" "${SELFTEST_INDEX:-$VERIF_DIR/selftest/INDEX.tsv}" | while IFS="$(printf '\t')" read -r patch props note; do
     [ -z "$patch" ] && continue
     if [ $# -gt 0 ]; then
         hit=0; for f in "$@"; do case "$patch" in *"$f"*) hit=1;; esac; done
